@@ -1,11 +1,13 @@
 from .common import COMMON_TB
 
 CFG = dict(
-    coq="Properties/C12.v",
+    coq=["Properties/C12.v", "Properties/C02Compose.v"],
     areas=["c12", "mt"],
     level="proof",
     theorems_expected=["C12_xz_multi", "C12_xz_bad_padding", "C12_xz_garbage_after_stream", "C12_xz_single_stream_stops",
-                       "C12_xz_concat_refuted", "C12_xz_trailing_padding_refuted", "C12_lzip_multi", "C12_lzip_trailing_data"],
+                       "C12_xz_concat_refuted", "C12_xz_trailing_padding_refuted", "C12_lzip_multi", "C12_lzip_trailing_data",
+                       "C12_xz_multi_lzma2", "C12_xz_multi_lzma2_delta", "C12_xz_bad_padding_lzma2", "C12_xz_garbage_after_stream_lzma2",
+                       "C12_lzip_multi_lzma1", "C12_lzip_trailing_data_lzma1"],
     rule="cases = concatenations of 1..4 complete XZ streams written by the crate (own options/check type per stream, empty streams "
          "included) with stream padding after each stream from {0,4,8,12,16} (valid) and {1,2,3,5,6,7} (invalid), sometimes non-zero "
          "garbage after the last stream; each file is read with multi-stream decoding on (expected: concatenated content, or an error for "
